@@ -17,8 +17,15 @@ for d in sorted(os.listdir(os.path.join(V, "seeded"))):
     r = m["checks"].get(tgt, {})
     how = "direct oracle (failing input)" if r.get("violations") and not r.get("no_failing_input") else (
           "correspondence only (no-failing-input-found)" if r.get("violations") else "MISSED")
-    rows.append("| %s | %s | %s | %s | %s |" % (d, summ.replace("|", "/"), "yes" if m["target_check_caught_it"] else "**no**", how,
-                                               ", ".join(c for c in m["caught_by"] if c != tgt) or "–"))
+    caught = "yes" if m["target_check_caught_it"] else "**no**"
+    others = [c for c in m["caught_by"] if c != tgt]
+    bp = os.path.join(V, "seeded", d, "meta_before_strengthening.json")
+    if os.path.exists(bp):
+        b = json.load(open(bp))
+        if not b["target_check_caught_it"]:
+            caught = "**no** at the first pass; yes after strengthening"
+        others = [c for c in b["caught_by"] if c != tgt]      # the full 20-check run was the first pass
+    rows.append("| %s | %s | %s | %s | %s |" % (d, summ.replace("|", "/"), caught, how, ", ".join(others) or "–"))
 print("| seeded change | what it does / what it needs to manifest | caught by its own check | how | also reported by |")
 print("|---|---|---|---|---|")
 print("\n".join(rows))
